@@ -24,6 +24,7 @@ const c02Rule = "classification: ref-built frames of every EtherType / IP protoc
 type c02Case struct {
 	Data drv.Hex `json:"data"`
 	View string  `json:"view,omitempty"`
+	Cut  int     `json:"cut,omitempty"` // the violation was seen on the first Cut bytes parsed in place (informational)
 }
 
 var (
@@ -129,6 +130,29 @@ func c02Classify(tb drv.TB, rec *drv.Rec, sub string, data []byte) {
 	if end != len(data) && !(want.IPEnd > 0 && end == want.IPEnd) {
 		bad("end-Payload", end, fmt.Sprintf("%d or %d", len(data), want.IPEnd))
 		return
+	}
+	// The same frame cut short at its layer boundaries, parsed in place: the receive buffer still holds the rest of
+	// the longer frame behind the slice (a reused buffer). The error verdict and the class must be those of the
+	// bytes inside the slice alone.
+	for _, k := range []int{14, 15, want.OffIP4 + 19, want.OffIP4 + 20, want.OffIP6 + 39, want.OffIP6 + 40, want.OffUDP + 7, want.OffUDP + 8, want.OffTCP + 19, want.OffTCP + 20, want.OffPayload, want.OffPayload + 7, want.OffPayload + 27, want.OffPayload + 28} {
+		if k < 14 || k >= len(data) {
+			continue
+		}
+		w2 := ref.Decode(data[:k])
+		if w2.Lenient {
+			continue
+		}
+		o2, sig2, msg2 := observeParse(c02Session(), in[:k])
+		cut := c02Case{Data: data, Cut: k}
+		if sig2 != "" {
+			rec.Violation(tb, sub, sig2, cut, "prefix of %d bytes parsed inside the buffer that holds the whole frame: %s", k, msg2)
+			return
+		}
+		if o2.Err != w2.Err || (!o2.Err && o2.PID != w2.PayloadID) {
+			rec.Violation(tb, sub, fmt.Sprintf("prefix-in-place pid=%d want-err=%v", w2.PayloadID, w2.Err), cut,
+				"the first %d of %d bytes parsed in place (rest of the frame still behind the slice): error %v class %d, reference error %v class %d", k, len(data), o2.Err, o2.PID, w2.Err, w2.PayloadID)
+			return
+		}
 	}
 	if want.Depth >= 1 {
 		rec.NonTrivial(drv.HashBytes(data), func() interface{} { return c02Case{Data: append([]byte(nil), data...)} })
@@ -705,8 +729,13 @@ func c02FieldBytes(t *rapid.T, w gen.World, view string) []byte {
 		b[0], b[1] = 0, 1
 		return b
 	case "HopByHopExtensionHeader":
-		u := rapid.IntRange(0, 3).Draw(t, "units")
-		b := gen.Bytes(t, u*8+8+rapid.IntRange(2, 10).Draw(t, "more"), "hbh")
+		// Hdr Ext Len is a full octet: headers of up to 2048 bytes are legal
+		u := rapid.OneOf(rapid.IntRange(0, 3), rapid.SampledFrom([]int{30, 31, 32, 33, 63, 64, 127, 128, 254, 255})).Draw(t, "units")
+		b := make([]byte, u*8+8+rapid.IntRange(2, 10).Draw(t, "more"))
+		seed := rapid.Uint64().Draw(t, "hbhseed")
+		for i := range b {
+			b[i] = byte(drv.Mix(seed + uint64(i)))
+		}
 		b[1] = byte(u)
 		return b
 	case "LLDP":
